@@ -93,6 +93,21 @@ XMLUCS4Transcoder::transcodeFrom(const  XMLByte* const          srcData
         if (fSwapped)
             nextVal = BitOps::swapBytes(nextVal);
 
+        // Values above 0x10FFFF and the surrogate code points are not characters
+        if (nextVal > 0x10FFFF || (nextVal >= 0xD800 && nextVal <= 0xDFFF))
+        {
+            XMLCh tmpBuf[17];
+            XMLString::binToText(nextVal, tmpBuf, 16, 16, getMemoryManager());
+            ThrowXMLwithMemMgr2
+            (
+                TranscodingException
+                , XMLExcepts::Trans_BadSrcCP
+                , tmpBuf
+                , getEncodingName()
+                , getMemoryManager()
+            );
+        }
+
         // Handle a surrogate pair if needed
         if (nextVal & 0xFFFF0000)
         {
